@@ -16,6 +16,7 @@ import (
 	"runtime"
 	"strings"
 	"sync"
+	"sync/atomic"
 	"time"
 
 	"github.com/pion/logging"
@@ -456,6 +457,7 @@ type simAgentConfig struct {
 	disableActive   bool
 	extra           []AgentOption
 	viaConfig       bool // build the agent from an AgentConfig struct (NewAgent) instead of options
+	nomStride       uint32 // > 1: renomination values come from a table spanning the 24-bit range (0: the default generator 1, 2, 3, …)
 }
 
 var simLoggerFactory = func() *logging.DefaultLoggerFactory { //nolint:gochecknoglobals
@@ -480,7 +482,21 @@ func (w *simWorld) newAgent(side int, cfg simAgentConfig) (*simAgent, error) {
 		opts = append(opts, WithICELite(true), WithCandidateTypes([]CandidateType{CandidateTypeHost}))
 	}
 	if cfg.renomination {
-		opts = append(opts, WithRenomination(DefaultNominationValueGenerator()))
+		gen := DefaultNominationValueGenerator()
+		if cfg.nomStride > 1 {
+			// strictly increasing 24-bit values with gaps of more than 2^23 between some of them
+			table := []uint32{5, 0x400000, 0x880000, 0x900000, 0xC80000, 0xF00000, 0xF80000, 0xFC0000, 0xFE0000, 0xFF0000, 0xFFF000, 0xFFFF00, 0xFFFFF0, 0xFFFFFF}
+			var k atomic.Uint32
+			gen = func() uint32 {
+				i := int(k.Add(1)) - 1
+				if i >= len(table) {
+					i = len(table) - 1
+				}
+
+				return table[i]
+			}
+		}
+		opts = append(opts, WithRenomination(gen))
 	}
 	if cfg.checkPriority {
 		opts = append(opts, WithEnableUseCandidateCheckPriority())
